@@ -107,6 +107,26 @@ def string_program(rnd):
     return Module(mod)
 
 
+def late_name_program(rnd):
+    """C09: a field / method name first interned while a module is compiled must still find its entry when an equal
+    name is interned much later (a module imported after many collections reads the field from outside)."""
+    f = rnd.choice(["coord", "total", "nm", "weight"])
+    mname = rnd.choice(["area", "describe", "mm"])
+    shapes = Module([Export(Class("Point", None, [Fn("init", [], Block([ExprSt(PropSet(Self(), f, Num(7))), ExprSt(PropSet(Self(), "other", Str("o")))]), "init"),
+                                                    Fn(mname, [], Block([Return(Bin("+", Prop(Self(), f), Num(1)))]), "method")]))])
+    reader = Module([Export(Fn("read", ["p"], Block([Return(Prop(Var("p"), f))]))),
+                     Export(Fn("call", ["p"], Block([Return(Invoke(Var("p"), mname, []))]))),
+                     Export(Fn("write", ["p", "v"], Block([ExprSt(PropSet(Var("p"), f, Var("v"))), Return(Prop(Var("p"), f))])))])
+    main = [ImportSyms("shapes", [("Point", "Point")]), Let("p", Call(Var("Point"), [])), Let("acc", List([]))]
+    for i in range(rnd.randint(2, 6)):
+        main.append(ExprSt(Invoke(Var("acc"), "push", [Bin("+", Str("churn"), Invoke(Num(i), "str", []))])))
+        main.append(Let(f"t{i}", List([Str("a"), Bin("+", Str("b"), Str("c"))])))
+    main.append(ImportSyms("reader", [("read", "read"), ("call", "call"), ("write", "write")]))
+    main.append(Print(Call(Var("read"), [Var("p")]), Call(Var("call"), [Var("p")]), Call(Var("write"), [Var("p"), Num(9)])))
+    main.append(Print(Invoke(Var("acc"), "len", [])))
+    return {"main": Module(main), "mods": {"shapes": shapes, "reader": reader}}
+
+
 def fiber_cases(tier, v):
     behs = c_sched.simulate("quick" if tier == "quick" else "thorough", v)
     rnd = random.Random(vlib.seed())
@@ -128,14 +148,22 @@ def run(pid, tier, replay=None):
     scheds = SCHEDULES_QUICK if tier == "quick" else SCHEDULES_THOROUGH
     n = {"C05": 150, "C09": 120, "C20": 60}[pid] if tier == "quick" else {"C05": 5000, "C09": 4000, "C20": 1500}[pid]
     if pid == "C09":
-        progs = [(f"str{i}", string_program(rnd)) for i in range(n)]
+        progs = [(f"str{i}", string_program(rnd)) for i in range(n)] + [(f"late{i}", late_name_program(rnd)) for i in range(n // 4)]
     else:
         progs = lang_corpus(rnd, n)
     cases = []
     for cid, ast in progs:
-        rec = lang.case_record(cid, ast)
+        if "mods" in ast and "k" not in ast:
+            rec = lang.multi_case_record(cid, ast["main"], ast["mods"])
+            rec["files"] = {"main.lay": lang.to_source(ast["main"])[0]}
+            for name, a in ast["mods"].items():
+                rec["files"][name + ".lay"] = lang.to_source(a)[0]
+            rec["src"] = rec["files"]["main.lay"]
+        else:
+            rec = lang.case_record(cid, ast)
+            rec["src"] = lang.to_source(ast)[0]
+            rec["files"] = {"main.lay": rec["src"]}
         rec["ast"] = ast
-        rec["src"] = lang.to_source(ast)[0]
         cases.append(rec)
     preds = langrun.predict(cases, v)
     judged = 0
@@ -145,7 +173,7 @@ def run(pid, tier, replay=None):
     for sname, sched in scheds:
         vmcases = []
         for c in cases:
-            d = {"id": c["id"], "files": {"main.lay": c["src"]}, "gc": sched, "max_events": 400000}
+            d = {"id": c["id"], "files": c["files"], "gc": sched, "max_events": 400000}
             if pid in ("C20", "C09") or (pid == "C05" and sname == scheds[0][0]):
                 d["classes"] = ["gc", "alloc"]
                 d["early"] = early
